@@ -32,6 +32,7 @@ static BR_NONMONO: std::sync::atomic::AtomicU64 = std::sync::atomic::AtomicU64::
 static WIDEN_SORTED: std::sync::atomic::AtomicU64 = std::sync::atomic::AtomicU64::new(0);
 
 pub fn wq(pts: &[u64], ws: &[f64], n: usize, cap: usize) -> Result<(Vec<u64>, usize), usize> {
+    let fixed = std::env::var("WQ_FIX").is_ok();   // candidate fix: epsilon scaled by the total weight
     let mn = *pts.iter().min().unwrap();
     let mx = *pts.iter().max().unwrap();
     let mut s: Vec<Split> = (1..n).map(|i| Split { pos: mn + (mx - mn) / n as u64 * i as u64, mn, mx, st: false }).collect();
@@ -53,6 +54,7 @@ pub fn wq(pts: &[u64], ws: &[f64], n: usize, cap: usize) -> Result<(Vec<u64>, us
         let mut pw = vec![0.0f64; n];
         for (p, w) in pts.iter().zip(ws) { pw[bsearch_pc(&pos, *p)] += *w; }
         let total: f64 = pw.iter().cloned().sum();
+        let eps = if fixed { f64::EPSILON * f64::min(1.0, total) } else { f64::EPSILON };
         let mut acc = 0.0;
         let pre: Vec<f64> = pw.iter().map(|x| { acc += *x; acc }).collect();
         let mut ns = s.clone();
@@ -69,7 +71,7 @@ pub fn wq(pts: &[u64], ws: &[f64], n: usize, cap: usize) -> Result<(Vec<u64>, us
                 let mut a = left;
                 for q in p + 1..n - 1 {
                     a += pw[q];
-                    if (a - exp).abs() <= f64::EPSILON { sp.mn = pos[q]; sp.mx = pos[q]; break; }
+                    if (a - exp).abs() <= eps { sp.mn = pos[q]; sp.mx = pos[q]; break; }
                     else if exp < a { if pos[q] < sp.mx { sp.mx = pos[q]; } break; }
                     else if a < exp { sp.mn = pos[q]; }
                 }
@@ -78,7 +80,7 @@ pub fn wq(pts: &[u64], ws: &[f64], n: usize, cap: usize) -> Result<(Vec<u64>, us
                 let mut a = left;
                 for q in (0..p).rev() {
                     a -= pw[q + 1];
-                    if (a - exp).abs() <= f64::EPSILON { sp.mn = pos[q]; sp.mx = pos[q]; break; }
+                    if (a - exp).abs() <= eps { sp.mn = pos[q]; sp.mx = pos[q]; break; }
                     else if a < exp { if sp.mn < pos[q] { sp.mn = pos[q]; } break; }
                     else if exp < a { sp.mx = pos[q]; }
                 }
@@ -117,13 +119,14 @@ fn gen(r: &mut Rng, maxm: usize, maxn: usize) -> (Vec<u64>, Vec<f64>, usize) {
     let mut pts: Vec<u64> = (0..m).map(|_| r.below(alpha)).collect();
     if r.below(3) == 0 { let i = r.below(m as u64) as usize; pts[i] = alpha - 1; let j = r.below(m as u64) as usize; pts[j] = 0; }
     let absorb = std::env::var("WQ_ABSORB").is_ok();
-    let wk = if absorb { 6 + r.below(4) } else { r.below(6) };
+    let wk = if absorb { 6 + r.below(5) } else { r.below(6) };
     let ws: Vec<f64> = (0..m).map(|_| match wk {
         // inexact sums: absorption (huge + tiny), tenths, wide random exponents
         6 => if r.below(3) == 0 { 9007199254740992.0 } else { 1.0 + r.below(3) as f64 },
         7 => if r.below(4) == 0 { 1.0e16 } else { [1.0, 2.0, 3.0, 0.0][r.below(4) as usize] },
         8 => (1 + r.below(30)) as f64 * 0.1,
         9 => ((1 + r.below(1000)) as f64) * (2.0f64).powi(r.below(120) as i32 - 60),
+        10 => 1.0e-17 * (1 + r.below(60)) as f64,
         0 => 1.0,
         1 => r.below(4) as f64,
         2 => (1 + r.below(9)) as f64,
@@ -132,6 +135,8 @@ fn gen(r: &mut Rng, maxm: usize, maxn: usize) -> (Vec<u64>, Vec<f64>, usize) {
         _ => (1 + r.below(16)) as f64 / 4.0,
     }).collect();
     let n = 3 + r.below(maxn as u64 - 2) as usize;
+    let scale: f64 = std::env::var("WQ_SCALE").ok().and_then(|x| x.parse().ok()).unwrap_or(1.0);
+    let ws: Vec<f64> = ws.iter().map(|w| w * scale).collect();
     (pts, ws, n)
 }
 
